@@ -24,6 +24,19 @@ ASSUMPTIONS = ["property clause 'adding simple selectors' is read as adding a ty
                "'adding ancestors or parents' = prefixing `p ` / `p > ` to the complex selector"]
 
 
+# Behaviour bit extracted from the running code (T1): does the `>` arm of is_superselector insist on
+# the nearest combinator (`a > c` is not a superselector of `a > b ~ c`)?  It touches no C23 law
+# (theorems hold for both), it only selects which variant of the model the code must agree with.
+ALWAYS_QUIRKS = []
+
+
+def extract(ctx):
+    src = '@use "sass:selector";a{r0: selector.is-superselector("a > c", "a > b ~ c")}'
+    out = ctx.impl(["compile\tscss\te\t10\tin.scss\t" + hx(src)])[0]
+    strict = not (out.startswith("ok:") and "r0: true" in unhx(out[3:]))
+    ALWAYS_QUIRKS[:] = ["parentStrict"] if strict else []
+
+
 def line(law, pairs, sets):
     """one protocol line: generic `compile` op for rsass; the tail (after two empty fields)
     is read by the model driver only"""
